@@ -11,7 +11,9 @@ import (
 	"github.com/jsightapi/jsight-api-core/core"
 
 	"verif/internal/chk"
+	"verif/internal/dt"
 	"verif/internal/impl"
+	"verif/internal/model"
 	"verif/internal/oj"
 	"verif/internal/ref"
 	"verif/internal/run"
@@ -24,6 +26,70 @@ func init() {
 	chk.Register(&chk.Check{ID: "C10", Level: "exploration", Run: runC10})
 	chk.RegisterWorker("c10abs", workC10Abs)
 	chk.RegisterWorker("c10graphs", workC10Graphs)
+	chk.RegisterWorker("c10models", workC10Models)
+}
+
+// workC10Models: generated models — the in-place rendering against every MACRO+PASTE abstraction of every sibling run
+// (one and two macros, definition before / after use); differential oracle: identical ToJson bytes.
+func workC10Models(w *run.W) {
+	var p struct {
+		Budget int `json:"budget"`
+	}
+	json.Unmarshal(w.Params, &p)
+	pal := model.DefaultPalette()
+	idx := int64(-1)
+	model.EnumDocs(pal, p.Budget, 0, func(d *model.Doc) {
+		idx++
+		if !w.Mine(idx) || !w.Begin(fmt.Sprintf("model%d", idx)) {
+			return
+		}
+		defer w.End()
+		var base string
+		lay := canonGlobal.Layout()
+		lay.Only = map[string]bool{"move": true}
+		dt.EnumLayouts(func(l *dt.Layout) *dt.File {
+			f := d.ToTree(l)
+			for step := 0; step < 2; step++ {
+				var mm []move
+				for _, m := range listMoves(f) {
+					if m.Kind != 2 {
+						mm = append(mm, m)
+					}
+				}
+				if len(mm) == 0 {
+					break
+				}
+				k := l.Choose("move", 1+len(mm))
+				if k == 0 {
+					break
+				}
+				f = applyMove(f, mm[k-1], step)
+			}
+			return f
+		}, lay, 2, func(f *dt.File, r *dt.Rendered, l *dt.Layout) bool {
+			if !dt.Legal(f.Nodes, explicitOf(r)) {
+				return true
+			}
+			txt := r.Files[r.Root]
+			b := impl.BuildMem("root.jst", txt)
+			w.Count("abstractions", 1)
+			obs := "ERR " + b.Err.Tuple()
+			if b.Panic != nil {
+				obs = "PANIC " + b.Panic.Value
+			} else if b.Err == nil {
+				obs = impl.ToJson(&b.J).String()
+			}
+			if l.Cost() == 0 {
+				base = obs
+				return true
+			}
+			w.Nontrivial(txt)
+			if obs != base {
+				w.Violation("C10", "model-macro-form-differs", fmt.Sprintf("the macro form of a generated document differs from the in-place form: %s\n%s", firstDiff(obs, base), trunc(txt, 1500)), map[string]any{"macro_form": txt})
+			}
+			return true
+		})
+	})
 }
 
 type c10Params struct {
@@ -416,6 +482,8 @@ func runC10(c *chk.Ctx) {
 	c.Merge(r, "abstractions")
 	r2 := c.Pool.Run("c10graphs", p)
 	c.Merge(r2, "graphs")
+	r3 := c.Pool.Run("c10models", map[string]any{"budget": chk.Pick(c, 3, 3)})
+	c.Merge(r3, "abstractions")
 	c.Cov["params"] = p
-	c.Cov["rule"] = "(a) every accepted INCLUDE-free LF corpus document x every eligible contiguous run of sibling directives (PASTE admitted at the site, MACRO admits the kinds, the reference automaton keeps the run inside the MACRO subtree) moved into MACRO+PASTE: one macro defined after / before use, a macro nested in a macro, two macros; oracle: identical ToJson bytes and identical expanded directive tree. (b) every PASTE graph over 3 macros + an undefined name (65,536 graphs): reachable cycle => recursion error, reachable undefined => macro-not-found, acyclic and defined => accepted with exactly the expanded macros' declarations in expansion order. Generated models x MACRO moves are covered by C02."
+	c.Cov["rule"] = "(a) every accepted INCLUDE-free LF corpus document x every eligible contiguous run of sibling directives (PASTE admitted at the site, MACRO admits the kinds, the reference automaton keeps the run inside the MACRO subtree) moved into MACRO+PASTE: one macro defined after / before use, a macro nested in a macro, two macros; oracle: identical ToJson bytes and identical expanded directive tree. (b) every PASTE graph over 3 macros + an undefined name (65,536 graphs): reachable cycle => recursion error, reachable undefined => macro-not-found, acyclic and defined => accepted with exactly the expanded macros' declarations in expansion order. (c) every generated model within the budget: the in-place rendering against every one- and two-macro abstraction of its sibling runs (identical ToJson bytes); C02 additionally compares them with the model."
 }
